@@ -26,7 +26,7 @@ CLAIMED = {
     "C01": dict(
         technique=ABSINT + " + canonical-form algebra",
         text="Expression.at is interpreted abstractly from source for every concrete class (children = "
-             "variables; arities 0..5, n up to 8 (thorough 30), bases below/at/above 1 and e), with a Constant of "
+             "variables; arities 0..5, n = 1..12, 15, 16 (thorough 1..30), bases below/at/above 1 and e), with a Constant of "
              "each value class or a child of each class its methods inspect in every position, for composite and "
              "shared-subexpression (DAG) instances, after earlier (also failing) evaluations of the same object at "
              "other points, after construction and symbolic-differentiation histories on the same objects, and "
@@ -63,7 +63,8 @@ CLAIMED = {
         technique=ABSINT + " + CFG must-pass-through",
         text="All 14 numeric derivative routes (early and late) are interpreted abstractly on every class and "
              "on every parent class with a possibly-undefined child in each argument position (zero factors, "
-             "zero numerators, base one, constant exponents, variable-free sub-trees): DomainError iff the "
+             "zero numerators, base one, constant exponents, variable-free sub-trees, and variable-free undefined terms "
+             "beside a variable under sums and differences, whose rules do not evaluate their children): DomainError iff the "
              "documented domain says the expression is undefined on the region. A CFG rule additionally shows "
              "that no normal exit of any forward/reverse rule skips evaluating or visiting a child.",
         note="Quick tier stays on the generic side of equalities between compound reals (measure-zero "
@@ -131,7 +132,9 @@ CLAIMED = {
     "C13": dict(
         technique=ABSINT.replace(" over an interval-region x symbolic-term domain", "") + " of __repr__/__str__ + parse-back of the printed constructor call",
         text="repr() and str() of a pool of expressions (all constructors and parameter kinds), points and all "
-             "derivative objects are computed by interpreting the source; the text is parsed as a Python expression, "
+             "derivative objects are computed by interpreting the source (following Python's formatting protocol: an "
+             "f-string without conversion calls the child's __format__), every literal of the pool also being placed "
+             "as a direct child of every kind of parent and inside derivative objects; the text is parsed as a Python expression, "
              "read as a constructor call with the public signatures and must denote exactly the original object; "
              "collisions between unequal expressions are checked directly.",
         note="The float -> text -> float round trip is Python's float.__repr__ and is taken as given.",
